@@ -24,7 +24,7 @@ import (
 )
 
 const (
-	maxTuplesPerType  = 1_500_000
+	maxTuplesPerType  = 2_500_000
 	membersPerGroup   = 6
 	pairsPerGroupBase = 2
 )
@@ -59,7 +59,7 @@ func (e *env) product(t *claimT, thorough bool) *prodT {
 	v0 := e.w.Vals[0]
 	def := e.build(t, nil, v0)
 	defKey := string(attKey(def))
-	defHash, _ := def.(skywaytypes.EthereumClaim).ClaimHash()
+	defHash, _ := safeHash(def.(skywaytypes.EthereumClaim))
 	for i := range t.Fields {
 		f := &t.Fields[i]
 		// blind: the key does not react to the field; external: the key reacts
@@ -70,7 +70,7 @@ func (e *env) product(t *claimT, thorough bool) *prodT {
 			if string(attKey(m)) != defKey {
 				blind = false
 			}
-			if h, _ := m.(skywaytypes.EthereumClaim).ClaimHash(); string(h) != string(defHash) {
+			if h, _ := safeHash(m.(skywaytypes.EthereumClaim)); string(h) != string(defHash) {
 				external = false
 			}
 		}
@@ -107,6 +107,11 @@ func (e *env) product(t *claimT, thorough bool) *prodT {
 				if thorough && len(f.Dom) > 2 {
 					toks = append(toks, f.Dom[2])
 				}
+			}
+		} else if n, ok := f.Dom[0].(sdkmath.Int); ok {
+			toks = append([]interface{}{n}, intVariants(n)...)
+			if thorough {
+				toks = append(toks, second)
 			}
 		} else {
 			toks = []interface{}{f.Dom[0], second}
@@ -171,9 +176,11 @@ func (e *env) eachKey(p *prodT, fn func(idx int, key []byte)) {
 		obj.Elem().Field(p.Fields[i].Idx).Set(vals[i][0])
 	}
 	for idx := 0; idx < p.Size; idx++ {
-		h, err := claim.ClaimHash()
-		must(err)
-		fn(idx, append(append([]byte{}, chainPrefix(claim.GetChainReferenceId())...), skywaytypes.GetAttestationKey(claim.GetSkywayNonce(), h)...))
+		if h, ok := safeHash(claim); ok {
+			fn(idx, append(append([]byte{}, chainPrefix(claim.GetChainReferenceId())...), skywaytypes.GetAttestationKey(claim.GetSkywayNonce(), h)...))
+		} else {
+			unhashable++
+		}
 		// odometer
 		for i := range d {
 			d[i]++
